@@ -176,6 +176,10 @@ CON = [
     # a scalar affine function of the vector variable times a constant column (an outer-product coefficient)
     ('dotcol', [(1, 2, 1, -1, 3, 2), (2, -1, 2, 1, 4, 1), (-1, 1, 1, 2, 2, 5)],
      lambda a, b, c0, c1, h0, h1: [['*c', ['+', ['dot', [a, b], Y], X], [c0, c1]], '<=', CM(h0, h1)]),
+    # vector affine part + the maximum over the components of a vector function (a single-argument max): written by
+    # the modeling layer as "vector + f0[k] <= 0 for all k"
+    ('vmaxv', [(M1, 3, 2), (M2, 1, 4), (M3, 2, 2)],
+     lambda M, c0, c1: [['+', Y, ['vmax', ['m*', M, Y]]], '<=', CM(c0, c1)]),
     # a scalar constraint whose linear pieces have different lengths (x: 1 row, y: 2 rows)
     ('maxs', [(1,), (2,), (0,)],
      lambda c: [['max', X, ['vmax', Y]], '<=', C(c)]),
